@@ -151,7 +151,7 @@ func init() {
 			"at least 3 members were in one session, accepted changes of at least 3 state classes occurred and at least one view comparison ran",
 			func(s *e1.Stats) bool { return s.MaxMembers >= 3 && len(s.ClassesChanged) >= 3 && s.ViewCompares > 0 })
 		partConcurrent(c, a, "C01")
-		partStepThrough(c, a, []string{"join", "switch", "leave", "delete", "compadd-vs-delete", "compadd-vs-leave", "action-vs-delete", "action-vs-leave"})
+		partStepThrough(c, a, []string{"join", "switch", "leave", "delete", "compadd-vs-delete", "compadd-vs-leave", "action-vs-delete", "action-vs-leave", "entityadd", "assetadd"})
 		partStepPairs(c, a, [][2]string{{"leave", "join2"}, {"join", "leave2"}, {"join", "join2"}, {"delete", "join2"}})
 		partGated(c, a, []func(*sut.Proc) *e2.Result{e2.G6SameKeyActionWriters, e2.G5SameKeyComponentWriters, e2.G4ModuleStateRace}, 1)
 		partLagSenders(c, a)
@@ -170,7 +170,7 @@ func init() {
 			})
 		partConcurrent(c, a, "C02")
 		partIntegrityStorm(c, a)
-		partStepThrough(c, a, []string{"join", "leave", "delete"})
+		partStepThrough(c, a, []string{"join", "leave", "delete", "entityadd", "compdel", "custom"})
 		partStepPairs(c, a, [][2]string{{"leave", "join2"}, {"join", "leave2"}, {"leave", "leave2"}})
 		partLagging(c, a)
 		partLagSenders(c, a)
@@ -210,7 +210,7 @@ func init() {
 					s.Accepted["comp_list"] > 0 && s.Marks["cascade:entity_del"]+s.Marks["cascade:departure"] > 0
 			})
 		partStoreStress(c, a)
-		partStepThrough(c, a, []string{"compadd-vs-compadd", "compadd-vs-delete", "compadd-vs-leave", "delete", "leave"})
+		partStepThrough(c, a, []string{"compadd-vs-compadd", "compadd-vs-delete", "compadd-vs-leave", "delete", "leave", "compdel"})
 		return a.finish(c)
 	}
 	registry["C13"] = func(c *check.Ctx) int {
@@ -231,7 +231,7 @@ func init() {
 				return s.Marks["custom:near-limit"] > 0 || s.Marks["custom:duplicate-recipient"]+s.Marks["custom:stranger-recipient"]+s.Marks["custom:self-recipient"] > 0
 			})
 		partIntegrityStorm(c, a)
-		partStepThrough(c, a, []string{"customto-vs-customto"})
+		partStepThrough(c, a, []string{"customto-vs-customto", "custom"})
 		return a.finish(c)
 	}
 	registry["C16"] = func(c *check.Ctx) int {
@@ -241,7 +241,7 @@ func init() {
 			func(s *e1.Stats) bool {
 				return marks(s, "action:older-timestamp", "action:equal-timestamp", "asset:replacement-attempt") && s.Joins >= 2
 			})
-		partStepThrough(c, a, []string{"action-vs-action", "action-vs-delete", "action-vs-leave", "delete", "leave", "join"})
+		partStepThrough(c, a, []string{"action-vs-action", "action-vs-delete", "action-vs-leave", "delete", "leave", "join", "assetadd"})
 		partStepPairs(c, a, [][2]string{{"join", "join2"}})
 		partRealBinaryIntegrity(c, a, false)
 		return a.finish(c)
